@@ -58,6 +58,22 @@ macro_rules! gh_obj {
     }};
 }
 
+/// default-parameter forms with a VARIABLE-length key container (Vec<u8> of 32..=64 bytes): every form hands the whole key to BLAKE2b
+fn gh_defaults_veckey(key: &[u8], chunks: &[Vec<u8>]) -> String {
+    use dryoc::generichash::GenericHash;
+    let all: Vec<u8> = chunks.concat();
+    let kv: Vec<u8> = key.to_vec();
+    let one: Result<Vec<u8>, _> = GenericHash::hash_with_defaults_to_vec(&all, Some(&kv));
+    let inc: Result<Vec<u8>, dryoc::Error> = (|| { let mut h = GenericHash::new_with_defaults(Some(&kv))?; for c in chunks { h.update(c); } h.finalize_to_vec() })();
+    let mut classic = vec![0xA5u8; 32];
+    let cr = dryoc::classic::crypto_generichash::crypto_generichash(&mut classic, &all, Some(&kv));
+    match (one, inc, cr) {
+        (Ok(a), Ok(b), Ok(())) => if a == b && a == classic { ok(&a) } else { format!("mismatch defaults forms with a {}-byte Vec key: one-shot {} incremental {} classic {}", kv.len(), hex(&a), hex(&b), hex(&classic)) },
+        (Err(_), Err(_), Err(_)) => "err".into(),
+        _ => "mismatch defaults forms with a Vec key: results differ".into(),
+    }
+}
+
 fn gh_defaults(key: &[u8], chunks: &[Vec<u8>]) -> Option<String> {
     use dryoc::generichash::GenericHash;
     let all: Vec<u8> = chunks.concat();
@@ -239,6 +255,7 @@ pub fn dispatch(op: &str, a: &[&str]) -> Option<Ans> {
                 (64, 64) => gh_obj!(64, 64, key, chunks),
                 (32, 64) => gh_obj!(32, 64, key, chunks),
                 (48, 24) => gh_obj!(48, 24, key, chunks),
+                (k, 32) if k > 32 && k <= 64 => gh_defaults_veckey(&key, &chunks),
                 _ => return Some(("n/a".into(), na())),
             };
             (r, na())
